@@ -709,11 +709,11 @@ func TestC11(t *testing.T) {
 		}
 		return c
 	}
-	if !ev.Rapid(t, rec, "random", rec.Scale(6000, 500000), genRandom, func(c Case) *ev.Failure { return runRecorded("random", c) }) {
+	if !ev.Rapid(t, rec, "random", rec.Scale(6000, 5000000), genRandom, func(c Case) *ev.Failure { return runRecorded("random", c) }) {
 		return
 	}
 	// the same generator against a real loopback socket, with a second connection in parallel
-	ev.Rapid(t, rec, "real_socket", rec.Scale(150, 6000), genRandom, func(c Case) *ev.Failure {
+	ev.Rapid(t, rec, "real_socket", rec.Scale(150, 20000), genRandom, func(c Case) *ev.Failure {
 		rec.Case(ev.Hash([]any{"real", c}), len(c.Msgs) >= 2 && len(c.Cuts) > 0, "real_socket")
 		return runReal(c)
 	})
